@@ -70,18 +70,26 @@ def StepCorr {σ : Type} (pos : Nat → Nat) :
   | .inr (a, e), .inr (b, e') => Corr pos a b ∧ e = e'
   | _, _ => False
 
+/-- the run did not stop for lack of fuel -/
+def Finished {σ : Type} (x : RunState σ × RunEnd) : Prop := x.2 ≠ .outOfFuel
+
+/-- two finished runs end the same way: same variables, same state, same kind of end (for a
+    failure: same message and same meta info of the failing instruction).  The final line and
+    the poll counter are not compared (they are indexes into / counts over different lists). -/
+def SameOutcome {σ : Type} (x y : RunState σ × RunEnd) : Prop :=
+  x.1.vars = y.1.vars ∧ x.1.st = y.1.st ∧ x.2 = y.2
+
 theorem dropsOnly_notPre : DropsOnlyDirectives (fun i => !isPre i) := by
   intro i h
   simpa using h
 
 theorem dropsOnly_notDirective : DropsOnlyDirectives (fun i => !isDirective i) := by
   intro i h
-  have h' : isDirective i = true := by simpa using h
-  unfold isDirective at h'
-  unfold isPre
-  split at h'
-  · rfl
-  · simp at h'
+  obtain ⟨mi, ty⟩ := i
+  cases ty with
+  | preProcess c a => rfl
+  | empty => simp [isDirective] at h
+  | script si => simp [isDirective] at h
 
 theorem hasLabel_keep (keep : Instruction → Bool) (hD : DropsOnlyDirectives keep)
     (i : Instruction) (l : Str) (h : HasLabel i l) : keep i = true := by
@@ -122,7 +130,7 @@ theorem posIn_getElem_keep (keep : Instruction → Bool) (is : List Instruction)
     | zero =>
       simp at h
       subst h
-      simp [posIn, posIn_zero, List.filter_cons, hk]
+      simp [posIn, posIn_zero, hk]
     | succ k =>
       have h' : rest[k]? = some i := by simpa using h
       obtain ⟨h1, h2⟩ := ih k i h' hk
@@ -299,8 +307,8 @@ theorem runStep_corr (sem : CmdSem σ) (hL : LineInsensitive sem) (hN : NoAbsolu
     (hk : ∀ i, is[rs.line]? = some i → keep i = true) :
     StepCorr (posIn keep is) (runStep sem is (labelTable is) halt rs)
       (runStep sem (is.filter keep) (labelTable (is.filter keep)) halt rs') := by
-  obtain ⟨k, p, vars, s⟩ := rs
-  obtain ⟨k', p', vars', s'⟩ := rs'
+  obtain ⟨k, p, vars0, s0⟩ := rs
+  obtain ⟨k', p', vars, s⟩ := rs'
   obtain ⟨h1, h2, h3⟩ := hc
   simp only at h1 h2 h3 hk
   subst h1 h2 h3
